@@ -168,7 +168,19 @@ def eval_rejoin(case):
     t, per = v.base_str, per_char(v)
     wf = wellformed(per) and '\x1b' not in t
     ref = [sgrterm.run(x) for x in renders(v)] if wf else None
-    for k in range(len(t) + 1):
+    ks = list(range(len(t) + 1))
+    if len(t) > 40:
+        # long values: every split point on / next to a change point plus an evenly spread sample
+        sel = set([0, 1, len(t) - 1, len(t)])
+        for i in range(1, len(t)):
+            if per[i] != per[i - 1]:
+                sel.update([i - 1, i, i + 1])
+        sel = sorted(x for x in sel if 0 <= x <= len(t))
+        cap = 40 if len(t) <= 100 else 14
+        if len(sel) > cap:
+            sel = sorted(set(sel[i * (len(sel) - 1) // (cap - 1)] for i in range(cap)))
+        ks = sel
+    for k in ks:
         r = v[:k] + v[k:]
         pr = per_char(r)
         if r.base_str != t:
